@@ -44,7 +44,7 @@ Qed.
 (** createVar: declared name or the default; type printed without the pointer; pointer-ness kept *)
 Lemma create_var_spec d name t def v :
   create_var d name t def = Ok v ->
-  v_name v = (match name with [] => def | _ => name end) /\
+  v_name v = declared_name name def /\
   type_name d (deref_ptr t) = Ok (v_type v) /\ v_pointer v = is_ptr t.
 Proof.
   unfold create_var. destruct (type_name d (deref_ptr t)) as [tn| | | |]; try discriminate. simpl.
@@ -66,11 +66,11 @@ Section Header.
       fn_style f = o_style (me_opts m) /\
       fn_ret_err f = me_ret_error d m /\
       (* destination: declared name, else dst (src under :reverse); declared pointer-ness; qualified type *)
-      v_name (fn_dst f) = (match dst_n with [] => (if o_reverse (me_opts m) then s2b "src" else s2b "dst") | _ => dst_n end) /\
+      v_name (fn_dst f) = declared_name dst_n (if o_reverse (me_opts m) then s2b "src" else s2b "dst") /\
       type_name d (deref_ptr dst_t) = Ok (v_type (fn_dst f)) /\ v_pointer (fn_dst f) = is_ptr dst_t /\
       (* source: the receiver name when :recv, else declared, else src (dst under :reverse) *)
       v_name (fn_src f) = (match o_receiver (me_opts m) with
-                           | [] => match src_n with [] => (if o_reverse (me_opts m) then s2b "dst" else s2b "src") | _ => src_n end
+                           | [] => declared_name src_n (if o_reverse (me_opts m) then s2b "dst" else s2b "src")
                            | r => r end) /\
       type_name d (deref_ptr src_t) = Ok (v_type (fn_src f)) /\ v_pointer (fn_src f) = is_ptr src_t /\
       List.length (fn_args f) = Nat.min (List.length arg_ns) (List.length arg_ts).
@@ -89,6 +89,7 @@ Section Header.
     apply rbind_ok in H as (dv & e3 & e4 & Hd & H & _). apply lift_ok in Hd as [Hd _].
     apply rbind_ok in H as (avs & e5 & e6 & Ha & H & _). apply lift_ok in Ha as [Ha _].
     apply rbind_ok in H as (sv & e7 & e8 & Hsv & H & _).
+    apply rbind_ok in H as (u0 & e70 & e80 & _ & H & _).
     apply rbind_ok in H as (asg & e9 & e10 & _ & H & _).
     apply rbind_ok in H as (u & e11 & e12 & _ & H & _).
     apply rbind_ok in H as (pre & e13 & e14 & _ & H & _).
@@ -97,11 +98,10 @@ Section Header.
     destruct (create_var_spec _ _ _ _ _ Hs) as (Hs1 & Hs2 & Hs3).
     destruct (create_var_spec _ _ _ _ _ Hd) as (Hd1 & Hd2 & Hd3).
     assert (Hsrc : v_name sv = (match o_receiver (me_opts m) with
-                                | [] => match src_n with [] => (if o_reverse (me_opts m) then s2b "dst" else s2b "src") | _ => src_n end
+                                | [] => declared_name src_n (if o_reverse (me_opts m) then s2b "dst" else s2b "src")
                                 | r => r end) /\ v_type sv = v_type sv0 /\ v_pointer sv = v_pointer sv0).
     { destruct (o_receiver (me_opts m)) as [|r0 rt] eqn:Er.
-      - apply ret_ok in Hsv as [<- _]. rewrite Hs1. split; [|split; reflexivity].
-        destruct src_n; [destruct (o_reverse (me_opts m))|]; reflexivity.
+      - apply ret_ok in Hsv as [<- _]. rewrite Hs1. split; [|split; reflexivity]. reflexivity.
       - destruct (v_external sv0); [discriminate|]. apply ret_ok in Hsv as [<- _]. simpl. auto. }
     destruct Hsrc as (Hn & Ht & Hp).
     assert (Hargs : List.length avs = Nat.min (List.length arg_ns) (List.length arg_ts)).
@@ -114,9 +114,58 @@ Section Header.
         simpl in Ha. injection Ha as <-. simpl. f_equal. eapply IH. exact Er. }
     refine (conj eq_refl (conj eq_refl (conj eq_refl (conj eq_refl (conj eq_refl (conj eq_refl (conj eq_refl (conj eq_refl
              (conj _ (conj Hd2 (conj Hd3 (conj Hn (conj _ (conj _ Hargs)))))))))))))).
-    - rewrite Hd1. destruct dst_n; [destruct (o_reverse (me_opts m))|]; reflexivity.
+    - rewrite Hd1. reflexivity.
     - rewrite Ht. exact Hs2.
     - rewrite Hp. exact Hs3.
+  Qed.
+
+  (** the variables of the generated function — source (or receiver), destination, additional
+      arguments, and err when it returns an error — have pairwise different names *)
+  Lemma mem_str_false_not_in x l : mem_str x l = false -> ~ In x l.
+  Proof.
+    induction l as [|y l IH]; cbn [mem_str]; intros H; [tauto|].
+    apply orb_false_iff in H as [H1 H2]. intros [->|Hin]; [now rewrite str_eqb_refl in H1|now apply IH].
+  Qed.
+
+  Lemma first_redeclared_none names : forall seen,
+    first_redeclared seen names = None -> NoDup names /\ forall n, In n names -> ~ In n seen.
+  Proof.
+    induction names as [|n rest IH]; intros seen H; cbn [first_redeclared] in H.
+    - split; [constructor|intros ? []].
+    - destruct (mem_str n seen) eqn:E; [discriminate|]. apply mem_str_false_not_in in E.
+      destruct (IH _ H) as [Hnd Hns]. split.
+      + constructor; [|exact Hnd]. intros Hin. apply (Hns n Hin). now left.
+      + intros x [<-|Hin]; [exact E|]. intros Hs. apply (Hns x Hin). now right.
+  Qed.
+
+  Theorem create_function_names_distinct fuel m comments f ev :
+    create_function d fuel m comments = (Ok f, ev) ->
+    NoDup (v_name (fn_src f) :: v_name (fn_dst f) :: List.map v_name (fn_args f)) /\
+    (fn_ret_err f = true ->
+     ~ In (s2b "err") (v_name (fn_src f) :: v_name (fn_dst f) :: List.map v_name (fn_args f))).
+  Proof.
+    unfold create_function. intros H.
+    destruct (sg_ptys (me_sig m)) as [|src_t arg_ts] eqn:E1; [discriminate|].
+    destruct (sg_pnames (me_sig m)) as [|src_n arg_ns] eqn:E2; [discriminate|].
+    destruct (sg_rtys (me_sig m)) as [|dst_t rts] eqn:E3; [discriminate|].
+    destruct (sg_rnames (me_sig m)) as [|dst_n rns] eqn:E4; [discriminate|].
+    repeat match type of H with
+           | (if ?c then _ else _) = _ => destruct c; [discriminate|]
+           | (match ?c with Some _ => _ | None => _ end) = _ => destruct c; [discriminate|]
+           end.
+    apply rbind_ok in H as (sv0 & e1 & e2 & _ & H & _).
+    apply rbind_ok in H as (dv & e3 & e4 & _ & H & _).
+    apply rbind_ok in H as (avs & e5 & e6 & _ & H & _).
+    apply rbind_ok in H as (sv & e7 & e8 & _ & H & _).
+    apply rbind_ok in H as (u0 & e70 & e80 & Hu & H & _).
+    apply rbind_ok in H as (asg & e9 & e10 & _ & H & _).
+    apply rbind_ok in H as (u & e11 & e12 & _ & H & _).
+    apply rbind_ok in H as (pre & e13 & e14 & _ & H & _).
+    apply rbind_ok in H as (post & e15 & e16 & _ & H & _).
+    apply ret_ok in H as [<- _]. cbn [fn_src fn_dst fn_args fn_ret_err].
+    destruct (first_redeclared _ _) eqn:Ef in Hu; [discriminate|].
+    apply first_redeclared_none in Ef as [Hnd Hns]. split; [exact Hnd|].
+    intros Hr Hin. rewrite Hr in Hns. apply (Hns _ Hin). now left.
   Qed.
 
   (** illegal combinations are rejected *)
